@@ -17,7 +17,7 @@ RULE = ('(a) EXHAUSTIVE small universe at function level: two identifiers per tr
         'payloads: the first acceptable peer proposal in peer order, NoProposalChosen otherwise; (c) END TO END over pairs of connection configurations: the suite '
         'in the IKE_SA_INIT response and in the IKE_AUTH / CREATE_CHILD_SA responses (opened by the wire shadow) equals the reference selection from the '
         'responder\'s configured order and the initiator\'s offer, KE group == chosen DH, INVALID_KE_PAYLOAD names exactly the chosen group, NO_PROPOSAL_CHOSEN '
-        'and no NEWSA when there is no common suite, algorithms in NEWSA == negotiated; (d) TAMPERED RESPONSES from an independent responder with valid AUTH: '
+        'and no NEWSA when there is no common suite, algorithms in NEWSA == negotiated; a third of the pairs run with COOKIEs demanded by both daemons, and every history ends with four IKE_SA rekeys (alternating initiator) judged against the preference order as written in the configuration; (d) TAMPERED RESPONSES from an independent responder with valid AUTH: '
         'extra / foreign / missing / duplicated transform, other key length, wrong protocol, for the IKE and the CHILD proposal; INVALID_KE_PAYLOAD '
         'suggesting a never-offered group or carrying 0/1/3 octets; plus a sweep: INVALID_KE_PAYLOAD suggesting every group number 0..32 (and 255, 270, 1024, 65535) against three offers whose INTEG / PRF / ENCR ids collide numerically with group numbers, in IKE_SA_INIT, in an IKE_SA rekey and in a PFS CHILD_SA rekey: a retry iff the group was offered, and then in exactly that group. distinct = case signatures.')
 ASSUMPTIONS = ['an initiator may install only a response that holds exactly one transform of every type it offered, each taken from its offer; a response with two transforms of one type may be refused or accepted']
@@ -161,6 +161,11 @@ def end_to_end(ck, rng, i):
     kw = gen_conf(rng, compatible=i % 4 != 0)
     sim, a, b = S.make_pair(ck.seed * 7 + i, **kw)
     sim.case = {'family': 'e2e', 'conf': kw}
+    if rng.random() < 0.35:
+        # both daemons are "under load": every IKE_SA_INIT goes through a COOKIE round first; selection and INVALID_KE_PAYLOAD rules are the same
+        a.ctl.cookie_threshold = b.ctl.cookie_threshold = 0
+        sim.case['cookies_demanded'] = True
+        ck.count('e2e.handshakes_under_cookie_mode')
     # the algorithms and key lengths each kernel SA is installed with must be the negotiated ones (KeyMonitor), whatever the IKE_SA uses
     km = SH.KeyMonitor(ck, prefix='e2e:')
     sh = km.attach(sim, S.W.dh_log)
@@ -511,6 +516,7 @@ def verdict(ck):
     ck.floor('end-to-end CHILD selections agreeing', c['e2e.child_selection_agrees'], 150)
     ck.floor('INVALID_KE_PAYLOAD suggestions swept (configuration x exchange x group)', len(ck.sets['ke_sweep.cases']), 300)
     ck.floor('suggestions of an offered group that must be followed', c['ke_sweep.must_retry'], 10)
+    ck.floor('end-to-end handshakes with COOKIEs demanded', c['e2e.handshakes_under_cookie_mode'], 40)
     ck.floor('IKE_SA rekey selections compared', c['e2e.ike_rekey_selection_compared'], 150)
     ck.floor('INVALID_KE_PAYLOAD replies seen', c['e2e.invalid_ke_seen'] + c['e2e.child_invalid_ke'], 20)
     ck.floor('NO_PROPOSAL_CHOSEN outcomes seen', c['e2e.no_proposal_chosen_seen'] + c['e2e.child_no_proposal_chosen'], 10)
